@@ -82,6 +82,20 @@ def wall_histories():
     return out
 
 
+def inside_histories():
+    """a connector end that lay inside a shape when it was last routed is moved out, to where that shape now stands between the two ends
+    (the router keeps, per end, the set of shapes that contain it -- it has to be rebuilt when the end moves)"""
+    B, C = [6, 0, 8, 10], [6, 10, 8, 16]
+    out = []
+    # connector 2 starts as (7,1)->(7,13): its source is inside B, its target inside C
+    out.append([[1, 1] + B, [5], [4, 2, 0, 1, 7], [4, 2, 1, 13, 13], [5]])
+    out.append([[1, 1] + B, [5], [4, 2, 0, 1, 5], [4, 2, 1, 13, 5], [5], [5]])
+    out.append([[1, 1] + C, [5], [4, 2, 1, 13, 13], [4, 2, 0, 1, 13], [5]])
+    out.append([[1, 1] + B, [1, 2] + [10, 4, 12, 8], [5], [4, 2, 0, 1, 5], [5], [4, 2, 1, 13, 5], [5]])
+    out.append([[6, 0], [1, 1] + B, [4, 2, 0, 1, 5], [4, 2, 1, 13, 5], [6, 1], [5]])
+    return out
+
+
 def trace_lines(h, res):
     lines = [{'e': 'Reset'}]
     stepat = {s['op']: s for s in res['steps']}
@@ -133,6 +147,8 @@ def main(tier):
     hists = hists + butt_histories() * 2
     nwall0 = len(hists)
     hists = hists + wall_histories() * 2
+    nins0 = len(hists)
+    hists = hists + inside_histories()
     hf = os.path.join(d, 'hists.txt')
     cfgs = []
     with open(hf, 'w') as f:
@@ -144,6 +160,8 @@ def main(tier):
             nconn = 1 if any(o[0] == 4 and o[1] == 2 for o in h) is False and rnd.random() < 0.5 else 2
             if hi_ >= nwall0:          # wall-and-post histories: one polyline connector, without and with a segment penalty
                 mode, P, nconn = 0, (0 if (hi_ - nwall0) < len(wall_histories()) else 3), 1
+            if hi_ >= nins0:           # end-formerly-inside-a-shape histories: polyline, both connectors
+                mode, P, nconn = 0, 0, 2
             cfgs.append((mode, P, nconn))
             flat = [x for o in h for x in o]
             f.write('%d %d %d %d %s\n' % (mode, P, nconn, len(h), ' '.join(map(str, flat))))
